@@ -15,6 +15,7 @@
  */
 
 #include "jls/wr_fsr.h"
+#include "jls/tmap.h"
 #include "jls/core.h"
 #include "jls/cdef.h"
 #include "jls/datatype.h"
@@ -274,6 +275,10 @@ int32_t jls_fsr_close(struct jls_core_fsr_s * self) {
             if (rc) {
                 JLS_LOGE("summary_close(%d) returned %" PRIi32, (int) i, rc);
             }
+        }
+        if (self->tmap) {
+            jls_tmap_free(self->tmap);
+            self->tmap = NULL;
         }
         free(self);
     }
